@@ -155,6 +155,45 @@ Lemma prim_rdiv_refuted :
   big_op TIBig IoDiv 5 (-1) = Ok (-5).
 Proof. split; reflexivity. Qed.
 
+
+(** signed p / x with x : IBig fits unless it is iN::MIN / -1 *)
+Theorem rdiv_signed_fits_iff : forall n p x, 0 < n -> in_ty (TPrim true n) p = true -> x <> 0 ->
+  (in_ty (TPrim true n) (Z.quot p x) = true <-> ~ (p = - 2 ^ (n - 1) /\ x = -1)).
+Proof.
+  intros n p x Hn Hp Hx. cbn [in_ty] in *. apply andb_true_iff in Hp. destruct Hp as [H1 H2].
+  apply Z.leb_le in H1. apply Z.ltb_lt in H2.
+  assert (HM : 0 < 2 ^ (n - 1)) by (apply Z.pow_pos_nonneg; lia).
+  rewrite andb_true_iff, Z.leb_le, Z.ltb_lt.
+  destruct (Z.eq_dec x (-1)) as [->|Hm1].
+  - replace (Z.quot p (-1)) with (- p).
+    2:{ change (Z.quot p (-1)) with (Z.quot p (Z.opp 1)). rewrite Z.quot_opp_r by lia. rewrite Z.quot_1_r. reflexivity. }
+    split; [intros [A B] [C _]; lia | intros N; split; [lia|]].
+    destruct (Z.eq_dec p (- 2 ^ (n - 1))); [exfalso; apply N; auto | lia].
+  - split; [intros _ [_ C]; contradiction | intros _].
+    destruct (Z.eq_dec x 1) as [->|H1x].
+    + rewrite Z.quot_1_r. lia.
+    + assert (Hax : 2 <= Z.abs x) by lia.
+      assert (Hq : Z.abs (Z.quot p x) * 2 <= Z.abs p).
+      { rewrite <- Z.quot_abs by lia. rewrite Z.quot_div_nonneg by lia.
+        pose proof (Z.mul_div_le (Z.abs p) (Z.abs x) ltac:(lia)).
+        pose proof (Z.div_pos (Z.abs p) (Z.abs x) ltac:(lia) ltac:(lia)). nia. }
+      lia.
+Qed.
+
+Lemma prim_rdiv_signed_refuted :
+  prim_left_asis TIBig (TPrim true 8) IoDiv (-128) (-1) = Panic Undocumented /\
+  big_op TIBig IoDiv (-128) (-1) = Ok 128.
+Proof. split; reflexivity. Qed.
+
+(** DivRem<prim> / DivRemAssign<prim>: the pair of the all-big form when the remainder fits *)
+Theorem prim_divrem_agrees : forall t pt x p,
+  (forall q r, divrem_spec x p = Ok (q, r) -> in_ty pt r = true) ->
+  prim_divrem_asis t pt x p = divrem_spec x p.
+Proof.
+  intros t pt x p H. unfold prim_divrem_asis. destruct (divrem_spec x p) as [[q r]| | |] eqn:E; cbn [rbind]; auto.
+  unfold try_into. cbn [fst snd]. rewrite (H q r eq_refl). reflexivity.
+Qed.
+
 (** ---------------------------------------------------------------- float shifts *)
 Theorem fshift_forms_agree : forall x n,
   fshl_asis x n = fshift_spec x n /\ fshr_asis x n = fshift_spec x (- n).
